@@ -287,6 +287,31 @@ def run(ctx):
                 unit_ = [c_[4] for c_ in cat if c_[0] == cls_ and c_[1] == cfg_][0]
                 py_table_oracle(ctx, cls_, cfg_, pts2, l2, gray_, unit_)
                 break
+    # buffers of one modulator written in place (gain applied, a checkpoint of another configuration loaded): a modulator built
+    # afterwards with the same options still publishes its own table
+    for i, (cls, cfg, mk, gray, unit) in enumerate(cat):
+        if not any(t_ in cfg for t_ in ("order=16", "order=64", "order=4,")) or cls in ("OQPSKModulator",):
+            continue
+        first = mk()
+        if not hasattr(first, "bit_patterns"):
+            continue
+        ref_pts, ref_labs = table_of(first, cls)
+        donors = [mk2 for (c2, cfg2, mk2, g2, u2) in cat if c2 == cls and cfg2 != cfg and cfg2.split(",")[0] == cfg.split(",")[0]]
+        try:
+            with torch.no_grad():
+                first.constellation.mul_(0.5)
+            if donors:
+                first.load_state_dict(donors[0]().state_dict(), strict=False)
+        except Exception as ex:
+            ctx.note("%s(%s): in-place buffer edit raised %s" % (cls, cfg, str(ex)[:60]))
+            continue
+        again = mk()
+        pts2, labs2 = table_of(again, cls)
+        ctx.count("buffer-edit-cases")
+        if labs2 != ref_labs or any(abs(float(a[0] - b_[0])) > 1e-6 or abs(float(a[1] - b_[1])) > 1e-6 for a, b_ in zip(ref_pts, pts2)):
+            ctx.violation("C14/%s/construction-after-buffer-edit" % cls, "%s(%s) built after another modulator of the same options had its buffers edited in place publishes a different table (first point %s vs %s, first labels %s vs %s)" % (
+                cls, cfg, [float(v) for v in pts2[0]], [float(v) for v in ref_pts[0]], labs2[:2], ref_labs[:2]), {"class": cls, "config": cfg})
+            py_table_oracle(ctx, cls, cfg, pts2, labs2, gray, unit)
     if ok:
         exprs = []
         for cls, cfg, m, pts, labs, gray, unit in tables:
